@@ -20,6 +20,14 @@ fn all_defs() -> Vec<DefEntry> {
     v.extend(shard5::registry());
     v.extend(shard6::registry());
     v.extend(shard7::registry());
+    v.extend(shard8::registry());
+    v.extend(shard9::registry());
+    v.extend(shard10::registry());
+    v.extend(shard11::registry());
+    v.extend(shard12::registry());
+    v.extend(shard13::registry());
+    v.extend(shard14::registry());
+    v.extend(shard15::registry());
     v.sort_by(|a, b| a.name.cmp(b.name));
     v
 }
@@ -50,7 +58,11 @@ fn run_case(defs: &[DefEntry], prop: &str, idx: usize) -> CaseOutcome {
     let d = &defs[idx / 3];
     let ci = idx % 3;
     let mut out = CaseOutcome::default();
-    let mut g = (d.instantiate[ci])();
+    let mut g = match d.instantiate[ci] {
+        Some(f) => f(),
+        None => return out, // this capacity is not part of the family that was built
+    };
+    out.stat("cases_instantiated", 1);
     let meta = g.meta().clone();
     let case_base = |fam: &str, pi: usize, spec: &PathSpec, log: &[String]| {
         json!({
@@ -221,7 +233,7 @@ fn main() {
         hook_acc += merged.stats.get("hook_accesses").copied().unwrap_or(0);
         crashes += merged.crashes;
         complete &= merged.complete && merged.cases_run == n_cases as u64;
-        per_build.insert(name.clone(), json!({"definitions_x_capacities": merged.cases_run, "paths": merged.stats.get("paths"), "operations": merged.stats.get("operations"), "violating": merged.violations_total, "crashes": merged.crashes, "hook_checked_accesses": merged.stats.get("hook_accesses")}));
+        per_build.insert(name.clone(), json!({"definitions_x_capacities": merged.stats.get("cases_instantiated"), "paths": merged.stats.get("paths"), "operations": merged.stats.get("operations"), "violating": merged.violations_total, "crashes": merged.crashes, "hook_checked_accesses": merged.stats.get("hook_accesses")}));
         for t in merged.tags {
             states.insert(t);
         }
@@ -241,7 +253,7 @@ fn main() {
         .cov("samples", samples)
         .cov("exhaustive", complete)
         .cov("definitions", defs.len() as u64)
-        .cov("capacities", "MAX_SIZE + {0, 1, 5}")
+        .cov("capacities", format!("MAX_SIZE + {:?}", CAP_EXTRA.iter().enumerate().filter(|(i, _)| defs.first().map_or(false, |d| d.instantiate[*i].is_some())).map(|(_, e)| *e).collect::<Vec<_>>()))
         .cov("paths_executed", paths)
         .cov("field_reads_compared_with_model", reads)
         .cov("hook_checked_accesses", hook_acc)
